@@ -317,6 +317,8 @@ func c04Run(in string) string {
 			t.DeleteChild(vu.UnHex(a[1]))
 		case "U":
 			t.SetVersion(trie.V1)
+		case "N":
+			t = t.Snapshot()
 		case "S":
 			root := t.MustHash()
 			// the hash computation above caches Merkle values but leaves Dirty untouched
@@ -491,6 +493,33 @@ func c04Gen(r *vu.RNG, n int, emit func(string)) {
 			}
 			ops = append(ops, "D:"+vu.Hex(k))
 			keys = append(keys, k, k0, k1)
+		}
+		if r.Chance(1, 5) {
+			// mutation paths between two stores: a branch whose children are persisted, then
+			//  - Delete of one child so that the branch merges with the remaining one (handleDeletion),
+			//  - ClearPrefix of a persisted subtree,
+			//  - a Snapshot without a store in between (copy-on-write over never-persisted dirty nodes)
+			k := c04key(r)
+			sub := func(suffix ...byte) []byte { return append(append([]byte{}, k...), suffix...) }
+			ka, kb, kc := sub(0x00), sub(0x10, 0x11), sub(0x10, 0x12)
+			big := func() []byte { return r.Bytes(28 + r.Intn(12)) }
+			ops = append(ops, "P:"+vu.Hex(ka)+":"+vu.Hex(big()), "P:"+vu.Hex(kb)+":"+vu.Hex(big()), "P:"+vu.Hex(kc)+":"+vu.Hex(c04value(r, tiny)))
+			if r.Chance(3, 4) {
+				ops = append(ops, "S")
+			} else {
+				ops = append(ops, "N")
+			}
+			switch r.Intn(4) {
+			case 0:
+				ops = append(ops, "D:"+vu.Hex(ka)) // the root of the group merges with its only child
+			case 1:
+				ops = append(ops, "D:"+vu.Hex(kb)) // the inner branch merges with the remaining leaf
+			case 2:
+				ops = append(ops, "X:"+vu.Hex(sub(0x10)))
+			default:
+				ops = append(ops, "N", "P:"+vu.Hex(kb)+":"+vu.Hex(big()), "D:"+vu.Hex(kc))
+			}
+			keys = append(keys, ka, kb, kc)
 		}
 		for b := 0; b < blocks; b++ {
 			nops := 1 + r.Intn(6)
